@@ -14,6 +14,8 @@ FUNCTIONS = ["btc_hd_wallet.bip85.BIP85DeterministicEntropy.entropy", "btc_hd_wa
              "btc_hd_wallet.wallet_utils.Bip32Path.parse", "btc_hd_wallet.wallet_utils.Bip32Path.convert_hardened",
              "btc_hd_wallet.bip32.PubKeyNode.derive_path", "btc_hd_wallet.keys.PrivateKey.wif", "btc_hd_wallet.paper_wallet.PaperWallet.bip85_data"]
 BOUNDS = {"parameters": "index, word_count, num_bytes, pwd_len are free signed 64-bit integers (negative and huge values included); master key free"}
+BOUNDS_ADDED = 'last derivation of the application path by the real ckd (hex and WIF applications): an invalid child means refusal'
+BOUNDS["histories, lifetimes, injected faults, boundary vectors"] = BOUNDS_ADDED
 STUBS = ["child derivation -> contract summary with recorded path (real ckd: C01)", "HMAC-SHA512 -> uninterpreted", "MNEM summary (C04)",
          "Base58Check -> summary", "base64 -> exact engine model"]
 ASSUMPTIONS = ["derived children are valid (C18)"]
